@@ -149,6 +149,7 @@ func main() {
 	out := flag.String("out", "", "result json")
 	smtdir := flag.String("smtdir", "", "directory for SMT-LIB logs")
 	defTimeout := flag.Int("timeout", 60000, "per query timeout ms")
+	goarch := flag.String("goarch", "", "GOARCH used to load the packages (selects the generic code paths of packages whose assembly is keyed on the architecture)")
 	pinFile := flag.String("pin", "", "model json (name -> value) used to pin inputs named by the harness option pin=<regexp>")
 	flag.Parse()
 	debug.SetGCPercent(400)
@@ -169,6 +170,9 @@ func main() {
 	}
 	cfg := &packages.Config{Mode: packages.LoadAllSyntax, Dir: *dir, BuildFlags: []string{"-tags=" + *tags}, Overlay: ov,
 		Env: append(os.Environ(), "GOFLAGS=-mod=mod", "GOPROXY=off", "GOSUMDB=off", "GOTOOLCHAIN=local")}
+	if *goarch != "" {
+		cfg.Env = append(cfg.Env, "GOARCH="+*goarch)
+	}
 	t0 := time.Now()
 	pkgs, err := packages.Load(cfg, *pkgPath)
 	if err != nil {
